@@ -56,7 +56,10 @@ MANIFEST = {
             "allocation skeleton of the reliable-transport receive path (coap_read_session's stream branch: partial_pdu allocated "
             "when the header is complete, stored in the session, grown to the announced size, detached / dispatched / deleted when "
             "complete, deleted by coap_session_disconnected_lkd on every failure exit and by coap_session_free) -- "
-            "recv_at_most_one_partial, recv_pdu_released_once, recv_no_leak_on_failure, recv_new_session_starts_clean; tied by "
+            "recv_at_most_one_partial, recv_pdu_released_once, recv_no_leak_on_failure, recv_new_session_starts_clean, and SERVED: with "
+            "memory available the skeleton simulates C05's stream reader (recv_dispatches_what_reader_delivers: what reaches "
+            "coap_dispatch is what the reader delivers for every cut; recv_dispatches_spec_frames: = the frames the specification finds "
+            "in the bytes; recv_served_after_failure: after ANY past a new session gets every message dispatched), recv_ledger_replays; tied by "
             "`arecv` scripts (real coap_read_session of a TCP session fed by a chunk feeder, coap_dispatch recorded through the "
             "source hook) under every single failing request index. NOT proved, enumerated only (OBSERVATION of the real code against the property text, no theorem): the 19 scenarios "
             "uri, pdu, request/response, Block1, Block2, observe, set-up/tear-down, OSCORE, 5.08, /.well-known/core of a 17-resource "
@@ -76,7 +79,7 @@ MANIFEST = {
             "(b1u.<pairs>), sends that have to WAIT in the session's delay queue (dly: three CONs and a NON back to back with "
             "NSTART = 1, a lost first transmission with CONs queued behind it) and CoAP over TCP on the kernel's loopback (tcp: "
             "a TCP endpoint, two client sessions, CSM exchange, 400- and 1200-byte messages that make coap_read_session grow the "
-            "receive PDU; a session that is still up must still be served after a failure closed another one) are run on "
+            "receive PDU; a session that is still up must still be served after a failure closed another one; ws: the same two sessions over CoAP over WebSockets; wsp: with short socket writes, frames written and read in parts) are run on "
             "the real code with every single allocation request failing (about 3600 runs; thorough: every pair, capped at 40000 per scenario, 1500 per generated order, 8000 / 6000 for oscobs / echo), "
             "each followed by a canary exchange on the same contexts, and "
             "judged by ASan/UBSan, the verified ledger monitor on the REAL allocation trace, LSan, PDU-consumed evidence, the canary, "
@@ -99,7 +102,7 @@ MANIFEST = {
 }
 LEAN_MODULES = ["CoapVerif.Props.C18", "CoapVerif.Props.C18Recv"]
 NAMESPACE = "Coap.C18"
-# clean (exit 0) at seeds 1..3 quick on 2026-09-28 with dly / tcp and the delayed-send scripts (E0 / E1)
+# clean (exit 0) at seeds 1..3 quick on 2026-09-28 with dly / tcp / ws / wsp and the delayed-send scripts (E0 / E1)
 REQUIRED_THEOREMS = ["failure_atomic", "no_leak_on_failure", "send_consumes_pdu", "send_error_keeps_slot", "next_op_succeeds",
                      "alloc_count_matches", "ledger_replay", "script_ledger_ok", "script_verdict",
                      "observer_refs_balanced", "observer_refs_count", "add_observer_spec", "createSub_spec", "deleteObserver_spec",
@@ -110,7 +113,9 @@ REQUIRED_THEOREMS = ["failure_atomic", "no_leak_on_failure", "send_consumes_pdu"
                      "send_pdu_consumed_exactly_once", "send_delayed_iff", "delayed_send_node_failure_releases_once",
                      "delayed_send_succeeds_with_memory", "connected_drain_spec", "drain_reqs_replays",
                      "recv_at_most_one_partial", "recv_pdu_released_once", "recv_script_clean", "recv_no_leak_on_failure",
-                     "recv_alloc_failure_is_failure_exit", "recv_new_session_starts_clean"]
+                     "recv_alloc_failure_is_failure_exit", "recv_new_session_starts_clean",
+                     "recv_dispatches_what_reader_delivers", "recv_dispatches_spec_frames", "recv_served_after_failure",
+                     "recv_ledger_replays"]
 RULE = ("(1) helper-layer scripts `ahelp k1 k2 <ops>`: random sequences (4..16 calls) of coap_pdu_init / add_token / add_option "
         "(ascending numbers, lengths on both sides of 12/13, 268/269) / add_data / pdu_resize / pdu_check_resize / delete_pdu / "
         "new_optlist+insert_optlist / add_optlist_pdu / delete_optlist / new_string|str_const|bin_const / delete / coap_send "
@@ -151,7 +156,7 @@ RULE = ("(1) helper-layer scripts `ahelp k1 k2 <ops>`: random sequences (4..16 c
         "and to /put, 2 fixed + 2 generated interleavings, thorough 4: the unknown-resource transfer first or second, final "
         "block early, repeats, the /put transfer complete or left unfinished), dly (sends waiting in the delay queue: second and "
         "third CON of a burst, CONs behind a retransmission), tcp (CoAP over TCP on loopback: two sessions, messages of 400 and "
-        "1200 bytes, a session still up must still be served): every single failing request index k (quick and thorough) and pairs (k, k2) (quick: a "
+        "1200 bytes, a session still up must still be served), ws (the same over CoAP over WebSockets: HTTP upgrade on loopback, session->ws, the frame buffer of coap_ws_write, the receive PDU of the WS branch of coap_read_session), wsp (ws with a socket that takes only half of every large write on the second session: coap_ws_write's progress within a frame, the delay queue's partial_write, the server's ws->rx_data): every single failing request index k (quick and thorough) and pairs (k, k2) (quick: a "
         "seeded sample of 4000, thorough: every pair of a scenario up to 40000 per scenario, 1500 per generated b1o / b1u order, 8000 of oscobs, 6000 of echo; a seeded sample beyond), each "
         "followed by a canary exchange, judged by ASan/UBSan, the Lean-verified ledger monitor on the real allocation trace, "
         "LSan, PDU-consumed evidence, 'a 2.xx body that claims to be complete is the body' (obsre: 'a notification is computed "
@@ -185,7 +190,7 @@ ASSUMPTIONS = ["PROVED only for the helper layer (PDU init/resize/token/option/d
                "send skeleton: UDP client session, ESTABLISHED or not yet (state forced by the script: E0 = CONNECTING, E1 = "
                "coap_session_connected), block mode off, no OSCORE, no Echo pending, message ids pairwise distinct (the `mid already "
                "in use` refusal of coap_session_delay_pdu does not occur), drain as for an unreliable transport",
-               "tcp scenario: real loopback TCP sockets; the harness waits in real time (at most 2 s) until nothing is in flight "
+               "tcp / ws scenarios: real loopback TCP sockets; the harness waits in real time (at most 2 s) until nothing is in flight "
                "(SIOCOUTQ = 0 on every connection, both sides agree on the number of connections) before it lets virtual time pass",
                "observer model: one observable resource, one UDP server session, request code not FETCH (payload copied but not part "
                "of the key), no observe_added / observe_deleted callbacks, COAP_RESOURCE_MAX_SUBSCRIBER = 0; add_observer_spec's ledger "
@@ -213,7 +218,7 @@ B1O_PAIR_CAP = 1500     # ... per generated b1o.<order> / b1u.<pairs> scenario (
 # a seeded sample keeps the thorough tier inside its 30 minutes
 SCN_PAIR_CAP = {"oscobs": 8000, "echo": 6000}
 SCENARIOS = ["uri", "pdu", "rr", "b1", "b2", "obs", "setup", "osc", "h508", "wkc", "b1raw", "b2raw", "obsblk", "cache", "async", "obsre",
-             "obsfetch", "oscobs", "echo", "xtok", "dly", "tcp"]
+             "obsfetch", "oscobs", "echo", "xtok", "dly", "tcp", "ws", "wsp"]
 # parametrised scenario b1o.<digits>: the five hand-built Block1 requests of b1raw in a generated order (repeats allowed);
 # these two always run (the final block early, and again before the gap is filled / a repeated middle block, a block after the end)
 B1O_FIXED = ["b1o.0442130", "b1o.4400123312"]
@@ -244,6 +249,8 @@ EXPECT0 = {
     "xtok": "req2,rsp2,c2.05,c2.05,nack0,body0/0,put0/0",
     "dly": "dq2,dq0,dq2,dq0,req7,rsp7,c2.05,c2.05,c2.05,c2.05,c2.05,c2.05,c2.05,nack0,body0/0,put0/0",
     "tcp": "sess11,est11/2,tput4/0,srvs2,up2,req7,rsp7,c2.04,c2.04,c2.04,c2.05,c2.04,c2.05,c2.05,nack0,body0/0,put0/0",
+    "ws": "sess11,est11/2,tput4/0,srvs2,up2,req7,rsp7,c2.04,c2.04,c2.04,c2.05,c2.04,c2.05,c2.05,nack0,body0/0,put0/0",
+    "wsp": "sess11,est11/2,tput4/0,srvs2,up2,req7,rsp7,c2.04,c2.04,c2.04,c2.05,c2.04,c2.05,c2.05,nack0,body0/0,put0/0",
     "obsfetch": "subs1,notify1,subs2,notify1,cancel1,subs1,cancel1,subs0,notify0,req7,rsp7,c2.05,c2.05,c2.05,c2.05,c2.05,c2.05,c2.05,nack0,body0/0,put0/0",
 }
 
@@ -734,7 +741,7 @@ def symptoms(c):
     if re.search(r"(^|,)deaf\d", out):
         what["deaf"] = ("a TCP session that is still established is no longer served after the failure hit ANOTHER session "
                         "(answered/asked: %s)" % re.search(r"deaf(\d+/\d+)", out).group(1))
-    if scn == "tcp" and re.search(r"tput\d+/[1-9]", out):
+    if scn in ("tcp", "ws", "wsp") and re.search(r"tput\d+/[1-9]", out):
         what["body"] = "a PUT handler on a TCP session was given a payload that is not the payload sent (%s)" % re.search(r"tput\d+/\d+", out).group(0)
     m = re.search(r"body(\d+)/(\d+),put(\d+)/(\d+)", out)
     if m and (int(m.group(2)) or int(m.group(4))):
@@ -876,6 +883,10 @@ def known(ctx, c):
         return None
     def some_site(*names):
         return any(all(n in s.split("<") for n in names) for s in sites)
+    # open: a part of a message is on the stream (short write) and the node that would keep the rest cannot be allocated:
+    # coap_send_internal releases the PDU and reports COAP_INVALID_MID, the session stays up with half a frame sent
+    if w[1] == "wsp" and some_site("coap_new_node", "coap_session_delay_pdu", "coap_send_internal") and what <= {"deaf", "body"}:
+        return "partial-write-not-queued-stream-out-of-step"
     # (oscore-conf-alloc-failure-ignored was open here until the fix of coap_parse_oscore_conf_mem: nothing in osc is excused any more)
     # (block2-partial-body-on-alloc-failure and block1-wrong-body-after-build-body-failure were open here until the fixes
     #  dd57cca / 28062c6: no case of b1, b2, b1raw, b2raw, wkc, obsblk may be excused any more)
